@@ -157,7 +157,7 @@ def stepTrace (σ : Option St) (ws : List String) : Option St × String :=
   | _, _ => (σ, "bad-op")
 
 /-- driver state: the trace machine of `Model.lean` and the index-side machine of `Index.lean`. -/
-abbrev DSt := Option St × Option Ix.St × Option Al.Cat × Option Sh.St × Option Sc.CSt
+abbrev DSt := Option St × Option Ix.St × Option (Al.Cat × Int) × Option Sh.St × Option Sc.CSt
 
 def stepLine1 (σ : Option St) (line : String) : Option St × String :=
   match (line.trimAscii.toString.splitOn " ").filter (· ≠ "") with
